@@ -69,6 +69,16 @@ func comps(extra map[string]string) map[string]string {
 }
 
 var props = map[string]propCfg{
+	"C05": {World: "auth", QuickRuns: 3000, ThoroughRuns: 300000,
+		Rule: "one run = one traffic history: 1..40 messages (RouterInfo, LeaseSet, LeaseSet2, MetaLeaseSet, EncryptedLeaseSet, bare OfflineSignature) of up to 8 honest publisher identities of every verifiable signature type, built by the reference encoder and signed with Go's standard crypto, delivered to a floodfill actor (library: parse + Verify) through a transport that records all traffic and applies 0..3 scripted faults per message: bit flips and byte rewrites placed by the field map, junk inside a mapping's declared size, bytes after the signature, signature swap (random / zero / another message's), key substitution, offline-block forgery (random / zero offline signature, attacker-owned transient key), offline-block transplant from a Byzantine identity, store-type confusion, replay. Oracle: library accepts => the reference verifier accepts the raw delivered bytes. Non-trivial = at least one fault fired; distinct = distinct run fingerprints.",
+		Assumptions: []string{"soundness direction only: 'reference accepts, library rejects' is not judged here (C06/C02)", "the reference verifier states exactly three facts: which key (right-justified in the 384-byte block, or the blinded key), which bytes (consumed minus trailing signature, with store-type prefix 3/5/7), and the offline chain; for signature type 8 it accepts Ed25519ph and pure Ed25519 (the question is whose key, not which variant)", "honest messages carry no fault; the evidence reports how often library and reference agree on them"},
+		Components:  comps(map[string]string{"publishers": "harness actors; honest messages come from the reference encoder + Go standard crypto, not from the library's constructors", "transport / adversary": "simulated: records traffic, tampers in flight", "floodfill": "harness actor calling the real Read*/Verify*", "clock": "synctest bubble (fixed instant)"}),
+		TimeoutQuick: 5 * time.Minute, TimeoutThoro: 40 * time.Minute},
+	"C06": {World: "auth", QuickRuns: 3000, ThoroughRuns: 300000,
+		Rule: "one run = 1..40 publications through the library's own signing constructors (NewRouterInfo, NewLeaseSet, NewLeaseSet2, NewEncryptedLeaseSet, CreateOfflineSignature) with the private key matching the contained identity and scripted admissible contents (options incl. empty values, one-character keys, 255-byte strings; 0..255 addresses; 0..16 leases; flag combinations; with/without offline block; every signing type the constructor takes), fault-free transport. Obligations per publication: constructed value verifies; its serialisation parses completely; the parsed value verifies (also when followed by another frame); the reference verifier accepts the same bytes. Non-trivial = at least one constructor call; distinct = distinct run fingerprints.",
+		Assumptions: []string{"a constructor that returns an error imposes no obligation (counted as a probe)", "entropy for DSA/ECDSA/Ed25519ph comes from the run's pinned source (cryptotest.SetGlobalRandom)"},
+		Components:  comps(map[string]string{"publishers": "harness actors calling the real signing constructors", "transport": "simulated, fault-free configuration of the C05 world", "floodfill": "harness actor calling the real Read*/Verify*", "entropy": "simulated: testing/cryptotest global source seeded per run"}),
+		TimeoutQuick: 5 * time.Minute, TimeoutThoro: 40 * time.Minute},
 	"C08": {World: "buf", QuickRuns: 4000, ThoroughRuns: 800000,
 		Rule: "one run = one history of 3..25 operations over a pool of 2..4 transport-owned 4 KiB receive buffers: Recv (a reference-encoded frame of one of the 21 entry points for the structures C08 lists is written into a buffer, possibly at a non-zero offset and followed by the next packet, parsed, and the value kept), Scribble (a field of the frame chosen from the reference field map, or the whole buffer, is overwritten with zeros / 0xFF / inverted / PRNG bytes), Recycle (Recv into a buffer that already holds a frame), ScribbleReturned (overwrite the slices handed out by the accessors documented to return copies). After every operation every live value's observation vector (all exported argument-free accessors, recursively) must equal the one captured right after its parse. Non-trivial = at least one scribble/recycle fired; distinct = distinct run fingerprints.",
 		Assumptions: []string{"for LeaseSet2 / MetaLeaseSet the observation leaves out Options(), entry Properties() and the serialisers/verifier that include them (the property exempts the options mappings)", "only frames the parser accepts are kept as live values", "accessors not documented to return copies are never scribbled"},
